@@ -14,11 +14,12 @@ pub struct Ctx {
     content: MetadataWrapper,
     /// cache: signer name -> a good signature value over `content`
     cache: HashMap<String, Vec<u8>>,
+    bad_count: usize,
 }
 
 impl Ctx {
     pub fn new(family: &str) -> Ctx {
-        Ctx { km: KeyMap::new(family, &NAMES), content: simple_link("c04"), cache: HashMap::new() }
+        Ctx { km: KeyMap::new(family, &NAMES), content: simple_link("c04"), cache: HashMap::new(), bad_count: 0 }
     }
 
     fn sig_value(&mut self, by: &str, fresh: bool) -> Vec<u8> {
@@ -45,8 +46,18 @@ impl Ctx {
             // operation (differs for randomized schemes)
             let mut v = self.sig_value(by, *n > 1);
             if !s["ok"].as_bool().unwrap() {
-                let i = v.len() / 2;
-                v[i] ^= 0x04;
+                self.bad_count += 1;
+                if self.bad_count % 2 == 0 {
+                    let i = v.len() / 2;
+                    v[i] ^= 0x04;
+                } else {
+                    // a genuine signature by this key over ANOTHER content - which has been verified
+                    // successfully in this very process just before (a replayed signature)
+                    let other = simple_link("c04-some-other-content");
+                    let mb = Metablock::new(other, &[self.km.sk(by)]).unwrap();
+                    let _ = guarded(|| mb.verify(1, [self.km.pk(by)]).is_ok());
+                    v = mb.signatures[0].value().as_bytes().to_vec();
+                }
             }
             out.push(make_sig(&self.km.idstr(s["kid"].as_str().unwrap()), &v));
         }
